@@ -1540,13 +1540,19 @@ func c05c(c *Ctx, r *Report) {
 			}
 			iObj := identObj(ginfo, outer.Key)
 			var defObj, tabObj types.Object
+			var defCall *ast.CallExpr
+			gcf := newCoverFn(g)
 			for _, s := range outer.Body.List {
 				if as, ok := s.(*ast.AssignStmt); ok && len(as.Lhs) == 1 && len(as.Rhs) == 1 {
-					if call, ok := as.Rhs[0].(*ast.CallExpr); ok && strings.HasSuffix(shortFuncName(callee(ginfo, call)), "findMaxOccurence") {
-						if lix, ok := as.Lhs[0].(*ast.IndexExpr); ok && identObj(ginfo, lix.Index) == iObj {
-							defObj = identObj(ginfo, lix.X)
-						}
-						if aix, ok := call.Args[0].(*ast.IndexExpr); ok && identObj(ginfo, aix.Index) == iObj {
+					lix, ok := as.Lhs[0].(*ast.IndexExpr)
+					if !ok || identObj(ginfo, lix.Index) != iObj {
+						continue
+					}
+					// the value stored is the call itself or a local bound once to it (a helper's result after inlining)
+					if call, ok := gcf.resolve(as.Rhs[0]).(*ast.CallExpr); ok && strings.HasSuffix(shortFuncName(callee(ginfo, call)), "findMaxOccurence") && len(call.Args) == 1 {
+						defObj = identObj(ginfo, lix.X)
+						defCall = call
+						if aix, ok := gcf.resolve(call.Args[0]).(*ast.IndexExpr); ok && identObj(ginfo, aix.Index) == iObj {
 							tabObj = identObj(ginfo, aix.X)
 						}
 					}
@@ -1561,7 +1567,6 @@ func c05c(c *Ctx, r *Report) {
 				return true
 			}
 			// the blanking: inline in the loop, or in a helper called with (row i of the table, default i)
-			gcf := newCoverFn(g)
 			isRow := func(info *types.Info, e ast.Expr) bool {
 				if info == ginfo {
 					e = gcf.resolve(e) // a local bound once to the row (e.g. a helper's parameter after inlining)
@@ -1572,6 +1577,9 @@ func c05c(c *Ctx, r *Report) {
 			isDef := func(info *types.Info, e ast.Expr) bool {
 				if info == ginfo {
 					e = gcf.resolve(e)
+					if call, isC := e.(*ast.CallExpr); isC && call == defCall {
+						return true // the local that holds this row's default before it is stored into the vector
+					}
 				}
 				ix, ok := unparen(e).(*ast.IndexExpr)
 				return ok && identObj(info, ix.X) == defObj && identObj(info, ix.Index) == iObj
